@@ -293,7 +293,7 @@ def gen_enum(rng, name) -> dict:
 STRUCT_KINDS = [(6, "dataclass"), (2, "namedtuple"), (2, "typeddict"), (2, "plain"), (1, "slotsclass")]
 
 
-def gen_struct(rng, view, cfg, name, *, depth=2, kind=None, hashable=False) -> dict:
+def gen_struct(rng, view, cfg, name, *, depth=2, kind=None, hashable=False, future=False) -> dict:
     kind = kind or core.weighted(rng, STRUCT_KINDS)
     n = rng.randint(1, 4)
     fields = _fields(rng, view, cfg, n, depth, hashable=hashable)
@@ -319,14 +319,16 @@ def gen_struct(rng, view, cfg, name, *, depth=2, kind=None, hashable=False) -> d
                         g.pop("factory", None)
                     break
     elif kind == "typeddict":
+        # Under `from __future__ import annotations` the interpreter itself cannot see
+        # Required/NotRequired (the class is created from strings): no markers there.
         if rng.random() < 0.3:
             d["total"] = False
             for f in fields:
-                if rng.random() < 0.4:
+                if not future and rng.random() < 0.4:
                     f["req"] = True
         else:
             for f in fields[1:]:
-                if rng.random() < 0.35:
+                if not future and rng.random() < 0.35:
                     f["nr"] = True
     else:
         if rng.random() < 0.4:
@@ -430,7 +432,7 @@ def gen_world(rng, cfg: Cfg, *, force_recursive=False, nmods=None) -> tuple[dict
             mod["decls"].append(s)
             view.add(mname, s, "struct", hashable=True)
         for _ in range(rng.randint(1, 3)):
-            s = gen_struct(rng, view, cfg, fresh("D"), depth=2)
+            s = gen_struct(rng, view, cfg, fresh("D"), depth=2, future=mod["future"])
             mod["decls"].append(s)
             view.add(mname, s, "struct")
         if cfg.wrappers:
@@ -656,12 +658,14 @@ def td_iso(days: int, seconds: int, micros: int) -> str:
     return f"{sign}P{date}" + (f"T{time_}" if time_ else "")
 
 
-def gen_pair(rng, t: dict, view_lookup: dict, cfg: Cfg, budget: int = 3):
+def gen_pair(rng, t: dict, view_lookup: dict, cfg: Cfg, budget: int = 3, trace: list | None = None):
     """(value AST valid for ``t``, value AST of its canonical wire form).  ``budget``
-    bounds recursion through recursive classes and nesting of non-empty containers."""
+    bounds recursion through recursive classes and nesting of non-empty containers.
+    ``trace`` (optional) receives one record per union position: the union, the member the
+    value inhabits and the wire form of that part."""
     k = t["k"]
     if k in ("final", "classvar"):
-        return gen_pair(rng, t["a"], view_lookup, cfg, budget)
+        return gen_pair(rng, t["a"], view_lookup, cfg, budget, trace)
     if k == "lit":
         v = rng.choice(t["v"])
         return v, v
@@ -676,7 +680,7 @@ def gen_pair(rng, t: dict, view_lookup: dict, cfg: Cfg, budget: int = 3):
                 wv = {"$f": repr(wv)}
             return {"$enum": [f"{t['m']}.{t['n']}", mem[0]]}, wv
         if cat in ("newtype", "alias"):
-            return gen_pair(rng, d["t"], view_lookup, cfg, budget)
+            return gen_pair(rng, d["t"], view_lookup, cfg, budget, trace)
         fields = {}
         wire = []
         b2 = budget - 1 if it.get("rec") else budget
@@ -685,7 +689,7 @@ def gen_pair(rng, t: dict, view_lookup: dict, cfg: Cfg, budget: int = 3):
                 optional = f.get("nr") or (d.get("total", True) is False and not f.get("req"))
                 if optional and rng.random() < 0.5:
                     continue
-            fv, fw = gen_pair(rng, f["t"], view_lookup, cfg, b2)
+            fv, fw = gen_pair(rng, f["t"], view_lookup, cfg, b2, trace)
             fields[f["n"]] = fv
             wire.append([f["n"], fw])
         if cat == "typeddict":
@@ -698,12 +702,17 @@ def gen_pair(rng, t: dict, view_lookup: dict, cfg: Cfg, budget: int = 3):
         if budget <= 0:
             for m in members:
                 if m["k"] == "none":
+                    if trace is not None:
+                        trace.append({"u": t, "m": m, "v": None, "w": None})
                     return None, None
         m = rng.choice(members)
-        return gen_pair(rng, m, view_lookup, cfg, budget)
+        pv, pw = gen_pair(rng, m, view_lookup, cfg, budget, trace)
+        if trace is not None:
+            trace.append({"u": t, "m": m, "v": pv, "w": pw})
+        return pv, pw
     if k in CONTAINERS1 or k == "tuplevar":
         n = _size(rng, cfg, budget)
-        pairs = [gen_pair(rng, t["a"], view_lookup, cfg, budget - 1) for _ in range(n)]
+        pairs = [gen_pair(rng, t["a"], view_lookup, cfg, budget - 1, trace) for _ in range(n)]
         if k in SETLIKE:
             ded, seen = [], set()
             for e in pairs:
@@ -723,17 +732,17 @@ def gen_pair(rng, t: dict, view_lookup: dict, cfg: Cfg, budget: int = 3):
         n = _size(rng, cfg, budget)
         items, witems, seen = [], [], set()
         for _ in range(n):
-            kv, kw = gen_pair(rng, t["a"][0], view_lookup, cfg, budget - 1)
+            kv, kw = gen_pair(rng, t["a"][0], view_lookup, cfg, budget - 1, trace)
             kk = _value_eq_key(kv)
             if kk in seen:
                 continue
             seen.add(kk)
-            vv, vw = gen_pair(rng, t["a"][1], view_lookup, cfg, budget - 1)
+            vv, vw = gen_pair(rng, t["a"][1], view_lookup, cfg, budget - 1, trace)
             items.append([kv, vv])
             witems.append([kw, vw])
         return {"$dict": items}, {"$dict": witems}
     if k == "tuple":
-        pairs = [gen_pair(rng, a, view_lookup, cfg, budget - 1) for a in t["a"]]
+        pairs = [gen_pair(rng, a, view_lookup, cfg, budget - 1, trace) for a in t["a"]]
         return {"$tuple": [p[0] for p in pairs]}, {"$list": [p[1] for p in pairs]}
     v = gen_scalar_value(rng, k, cfg)
     return v, scalar_wire(k, v)
